@@ -22,8 +22,8 @@ LEVEL = "exploration"
 
 ROOT = "http://h.invalid/dir/root.json"
 NAMES = ["a", "", "0", "a/b", "a~b", "~01", "~10", "%25", "a b", "é", "#", "?", "~1", "/", "%", "\"", "\\",
-         "01", "-", "~0", "%2F", "a%20b"]
-NAMES_Q = ["a", "", "0", "a/b", "~01", "%25", "a b", "é", "#", "/", "~1", "?"]
+         "01", "-", "~0", "%2F", "a%20b", "a+b", "C++", "application/ld+json", "{id}", "a&b=c", "a;b", "a=b", "$x", "a,b", "@", "!*'()"]
+NAMES_Q = ["a", "", "0", "a/b", "~01", "%25", "a b", "é", "#", "/", "~1", "?", "a+b", "{id}", "a&b=c;d,e@f!$'()*"]
 T_INT, T_STR, T_MIN = {"type": "integer"}, {"type": "string"}, {"minimum": 1}
 INST = [0, 1, "a", None, [0, "a"], ["a", 1, 2], {"a": 0}, {"a": "a", "b": 0}, {"a": [0, "a"]}, [], {},
         {"a": [0, "a"], "b": 0}, [{"a": "a"}, 0], {"a": {"a": ["a", 0]}, "b": "a"}, [[0, "a"], ["a"]]]
@@ -419,7 +419,22 @@ def gen_recursive(d, tier):
                       "$ref": "#/definitions/a"}, {})
 
 
-REC_INST = [{"v": 1, "kids": [{"v": "x", "kids": [{"v": 2}, {"v": None}]}, {"v": 3}]}, {"v": "a"}, [],
+def _chain(n, leaf):
+    x = leaf
+    for _ in range(n):
+        x = {"v": 1, "next": x}
+    return x
+
+
+def _tree(n, leaf):
+    x = leaf
+    for _ in range(n):
+        x = {"v": 1, "kids": [x]}
+    return x
+
+
+REC_INST = [[_chain(70, {"v": "bad"})], _tree(70, {"v": "bad"}), [_chain(100, {"v": 2})], _tree(100, {"v": 3}),
+            {"v": 1, "kids": [{"v": "x", "kids": [{"v": 2}, {"v": None}]}, {"v": 3}]}, {"v": "a"}, [],
             [{"v": 1, "next": {"v": "s", "next": {"v": 2}}}, {"v": 2.5}], {"kids": [{"v": 0, "kids": [[]]}]},
             [{"x": [{"x": [1]}, 2]}, 3], [[{"x": []}]], 5, {"kids": [{"kids": [{"kids": [{"v": []}]}]}]}]
 
